@@ -179,8 +179,26 @@ pub fn strip_colors(input: &str) -> Result<String> {
     String::from_utf8(stripped).context("decode stripped bytes back to utf8 string")
 }
 
+lazy_static! {
+    /// Escape sequences (ECMA-48): CSI sequences (colors, cursor movement ..),
+    /// OSC and the other string sequences *with* their terminator, and the
+    /// short ones that consist of ESC, intermediates and one final byte
+    static ref ESCAPE_SEQUENCE: regex::bytes::Regex = regex::bytes::Regex::new(
+        r"(?x-u)
+          \x1b\[ [\x30-\x3f]* [\x20-\x2f]* [\x40-\x7e]
+        | \x1b\] [^\x07\x1b]* (?: \x07 | \x1b\\ )
+        | \x1b[PX^_] [^\x1b]* \x1b\\
+        | \x1b [\x20-\x2f]* [\x30-\x4f\x51-\x57\x59\x5a\x5c\x60-\x7e]
+        "
+    )
+    .expect("escape sequence regex must compile");
+}
+
+/// Removes escape sequences from the input. Everything else stays as it is:
+/// other control characters, bytes that are not valid UTF-8, and the beginning
+/// of a sequence that never ends (which must not swallow what follows it).
 pub fn strip_colors_bytes(input: &[u8]) -> Result<Vec<u8>> {
-    strip_ansi_escapes::strip(input).context("strip ansi escape sequences from rendered output")
+    Ok(ESCAPE_SEQUENCE.replace_all(input, &b""[..]).into_owned())
 }
 
 #[cfg(test)]
